@@ -111,6 +111,9 @@ class ModelBackend(object):
     def probe(self, inst, st):
         pass
 
+    def set_option(self, inst, name, value):
+        pass
+
     def result(self, val):
         raise ModelResult(val)
 
